@@ -192,6 +192,30 @@ def arr_setitem(I, arr, idx, v, env):
             return z3.Store(t, js[0], store(z3.Select(t, js[0]), js[1:]))
         arr.arr = store(arr.arr, js)
         return
+    if (len(idx) == 2 and len(arr.shape) == 2 and isinstance(idx[1], SliceObj) and idx[1].step is None
+            and not isinstance(idx[0], (SliceObj, SymArr, PList)) and idx[0] is not None and idx[0] is not Ellipsis
+            and not isinstance(v, (SymArr, PList)) and not (arr.memview and env is not None and I.is_cy(env))):
+        # a[i, lo:hi] = scalar: the slice of row i is filled (NumPy slice semantics: bounds clipped to the row)
+        i = zint(_bounds(I, arr, 0, idx[0], env, arr.name))
+        n = zint(arr.shape[1])
+
+        def norm(b, default):
+            if b is None:
+                return default
+            b = zint(I.unC(b))
+            b = z3.If(b < 0, b + n, b)
+            return z3.If(b < 0, 0, z3.If(b > n, n, b))
+        lo, hi = norm(idx[1].start, z3.IntVal(0)), norm(idx[1].stop, n)
+        if arr.ctype is not None:
+            cv = I.convert(arr.ctype, v, f"store to {arr.name}")
+            val = cv.term if isinstance(cv, CV) else cv
+            val = zreal(val) if is_float_ctype(arr.ctype) else zint(val)
+        else:
+            val = zint(I.unC(v))
+        q = z3.Int("q!fill")
+        row = z3.Select(arr.arr, i)
+        arr.arr = z3.Store(arr.arr, i, z3.Lambda([q], z3.If(z3.And(q >= lo, q < hi), val, z3.Select(row, q))))
+        return
     if len(idx) == 1 and isinstance(idx[0], SliceObj) and len(arr.shape) == 1 \
             and idx[0].start is None and idx[0].stop is None and idx[0].step is None:
         # a[:] = value / list  (whole-array fill)
